@@ -21,7 +21,8 @@ import (
 //
 // Regimes (the writer computes the bounds of a page with `boundsXxx`, which picks a kernel by the page length):
 //
-//	small    PageBufferSize(1): one page per Write call, 1..20 pages of 1..32 values, all-null pages, several row groups
+//	small    PageBufferSize(1): one page per Write call, 1..20 pages of 1..32 values, all-null pages, all-NaN pages and NaN
+//	         among the values of the float columns, several row groups
 //	default  default options, one Write of 70000+ rows: full default-size pages (>= 32113 64-bit / >= 64225 32-bit values)
 //	edge     PageBufferSize(8 MiB), one Write + Flush per row group: pages of exactly 32112..32114, 131071..131073 and
 //	         262143..262145 values (the dispatch thresholds of page_bounds_amd64.go for 64-bit and 32-bit kinds)
@@ -208,10 +209,22 @@ func c06PGenSmall(r *rand.Rand, id string) *c06PFile {
 			pos = len(ok) - 1
 		}
 		nullPageP := []int{0, 3, 6}[r.Intn(3)]
+		nanPageP := 0
+		if k.float {
+			nanPageP = []int{0, 2, 4}[r.Intn(3)]
+		}
 		for p := 0; p < np; p++ {
 			page := make([]*c05Val, f.sizes[p])
 			if col.optional && r.Intn(16) < nullPageP {
 				f.cells[ci] = append(f.cells[ci], page) // all-null page
+				continue
+			}
+			if r.Intn(16) < nanPageP { // a page of NaN values only
+				for i := range page {
+					v := k.gen(r, 16)
+					page[i] = &v
+				}
+				f.cells[ci] = append(f.cells[ci], page)
 				continue
 			}
 			switch mode {
@@ -227,6 +240,9 @@ func c06PGenSmall(r *rand.Rand, id string) *c06PFile {
 					continue
 				}
 				v := ok[min(len(ok)-1, pos+r.Intn(2))]
+				if nanPageP > 0 && r.Intn(6) == 0 {
+					v = k.gen(r, 16) // NaN among the values
+				}
 				page[i] = &v
 			}
 			f.cells[ci] = append(f.cells[ci], page)
@@ -342,6 +358,21 @@ func c06PKey(kind string, v c05Val) string {
 		return strconv.FormatInt(int64(v.bits), 10)
 	case "u32":
 		return strconv.FormatUint(uint64(uint32(v.bits)), 10)
+	case "f32", "f64":
+		// sign-magnitude rank of a float bit pattern (Stats.fKey): -0.0 and +0.0 both rank 0; NaN is not ranked
+		w := uint(32)
+		if kind == "f64" {
+			w = 64
+		}
+		if (kind == "f32" && math.Float32frombits(uint32(v.bits)) != math.Float32frombits(uint32(v.bits))) ||
+			(kind == "f64" && math.IsNaN(math.Float64frombits(v.bits))) {
+			return "nan"
+		}
+		mag := v.bits &^ (1 << (w - 1))
+		if v.bits>>(w-1)&1 == 1 && mag != 0 {
+			return "-" + strconv.FormatUint(mag, 10)
+		}
+		return strconv.FormatUint(mag, 10)
 	default:
 		return strconv.FormatUint(v.bits, 10)
 	}
@@ -449,6 +480,22 @@ func c06PCheckChunk(ctx *core.Ctx, b *c05Batch, r *rand.Rand, f *c06PFile, ci in
 	}
 	for _, p := range pages {
 		ctx.Hist("pages: values per page ("+col.kind+")", c06PBucket(len(p.vals)))
+		if k.float && len(p.vals) > 0 {
+			nn := 0
+			for _, v := range p.vals {
+				if k.isNaN(v) {
+					nn++
+				}
+			}
+			switch {
+			case nn == len(p.vals):
+				ctx.Hist("pages: float pages", "all-NaN")
+			case nn > 0:
+				ctx.Hist("pages: float pages", "some-NaN")
+			default:
+				ctx.Hist("pages: float pages", "no-NaN")
+			}
+		}
 	}
 	ctx.Hist("pages: index order", fmt.Sprint(view.order))
 	probes := c06PProbes(r, k, pages)
@@ -502,12 +549,16 @@ func c06PCheckChunk(ctx *core.Ctx, b *c05Batch, r *rand.Rand, f *c06PFile, ci in
 			}
 		}
 	}
-	if !l2 || k.float || b.d == nil {
+	if !l2 || b.d == nil {
 		return
 	}
 	// ---- L2: the index and the searches recomputed by the Lean model from the page VALUES
 	var sb strings.Builder
-	sb.WriteString("pages.find ")
+	if k.float {
+		sb.WriteString("pages.findf ")
+	} else {
+		sb.WriteString("pages.find ")
+	}
 	sb.WriteString(col.kind)
 	sb.WriteByte(' ')
 	if len(pages) == 0 {
@@ -728,7 +779,7 @@ func RunC06Pages(ctx *core.Ctx) {
 	}
 	var jobs []job
 	edgeSizes := [][]int{{32112, 32113, 32114}, {131071, 131072, 131073}, {262143, 262144, 262145}}
-	for i := 0; i < ctx.Scale(1, 4); i++ {
+	for i := 0; i < ctx.Scale(1, 1); i++ {
 		for e, sz := range edgeSizes {
 			sz := sz
 			jobs = append(jobs, job{fmt.Sprintf("pagesedge#%d.%d", i, e), func(r *rand.Rand, id string) *c06PFile {
@@ -736,12 +787,12 @@ func RunC06Pages(ctx *core.Ctx) {
 			}})
 		}
 	}
-	for i := 0; i < ctx.Scale(4, 48); i++ {
+	for i := 0; i < ctx.Scale(4, 12); i++ {
 		jobs = append(jobs, job{fmt.Sprintf("pagesdefault#%d", i), func(r *rand.Rand, id string) *c06PFile {
 			return c06PGenBig(r, id, "default", []int{70000 + r.Intn(4000)}, false, false)
 		}})
 	}
-	nsmall := ctx.Scale(800, 30000)
+	nsmall := ctx.Scale(800, 5000)
 	const chunk = 50
 	for i := 0; i < nsmall; i += chunk {
 		i := i
